@@ -336,8 +336,12 @@ class FragmentTask(Task):
         fr.vars.update(inp.get("frame", {}))
         ex.call_depth += 1
         provided = set(inp.get("frame", {}))
+        from .exec import _Return
         try:
-            ex.exec_block(stmts, fr)
+            try:
+                ex.exec_block(stmts, fr)
+            except _Return as r:
+                fr.vars["__return__"] = r.v        # the fragment ends with the function's return: its value, for the post-condition
         except SymRaise as e:
             if e.etype in ("NameError", "UnboundLocalError") and str(e.msg) not in provided:
                 # the fragment reads a name its contract's frame does not provide: the statements around it were renamed or
